@@ -253,6 +253,7 @@ def case_polygon(mon: Monitor, rng: random.Random) -> None:
     poly = sg.Polygon(pts)
     if not poly.is_valid or poly.area <= 0:
         return mon.skip("GridSpec.tiles_from_geopolygon", "invalid polygon")
+    shape_kind = "polygon"
     if cross:
         # hand over the query in EPSG:4326, densified so that vertex-wise projection follows the true image
         dense = poly.segmentize(max(tw, th) / 50)
@@ -264,6 +265,23 @@ def case_polygon(mon: Monitor, rng: random.Random) -> None:
         if not poly_native.is_valid:
             return mon.skip("GridSpec.tiles_from_geopolygon", "invalid polygon")
     else:
+        shape_kind = "polygon"
+        if rng.random() < 0.35:
+            # multi-part queries (parts in one tile row / column, a tile or more apart; scattered) and polygons with a hole swallowing whole tiles:
+            # tiles between the parts / inside the hole do not overlap the query
+            shape_kind = rng.choice(["multi-row", "multi-col", "multi-scatter", "hole"])
+            i0, j0 = rng.randint(-3, 3), rng.randint(-3, 3)
+            small = lambda i, j: sg.box(ox + (i + rng.uniform(0.1, 0.4)) * tw, oy + (j + rng.uniform(0.1, 0.4)) * th, ox + (i + rng.uniform(0.6, 0.9)) * tw, oy + (j + rng.uniform(0.6, 0.9)) * th)
+            if shape_kind == "multi-row":
+                poly = sg.MultiPolygon([small(i0, j0), small(i0 + rng.randint(2, 4), j0)] + ([small(i0 + 6, j0)] if rng.random() < 0.4 else []))
+            elif shape_kind == "multi-col":
+                poly = sg.MultiPolygon([small(i0, j0), small(i0, j0 + rng.randint(2, 4))])
+            elif shape_kind == "multi-scatter":
+                poly = sg.MultiPolygon([small(i0, j0), small(i0 + 2, j0 + rng.randint(1, 3)), small(i0 - 2, j0 + 3)])
+            else:
+                outer = sg.box(ox + (i0 - 0.5) * tw, oy + (j0 - 0.5) * th, ox + (i0 + 3.5) * tw, oy + (j0 + 3.5) * th)
+                poly = outer.difference(sg.box(ox + (i0 + 0.9) * tw, oy + (j0 + 0.9) * th, ox + (i0 + 2.1) * tw, oy + (j0 + 2.1) * th))
+            pts = [list(poly.bounds), shape_kind]
         query = geom.Geometry(poly, crs)
         poly_native = poly
     res, e = call(lambda: list(gs.tiles_from_geopolygon(query)))
@@ -289,7 +307,7 @@ def case_polygon(mon: Monitor, rng: random.Random) -> None:
                 may.add((ix, iy))
     ok = must <= got <= may and all(g == gs[i] for i, g in res)
     mon.check(ok, "GridSpec.tiles_from_geopolygon", lambda: {**desc, "poly": pts, "got": sorted(got), "missing": sorted(must - got), "extra": sorted(got - may)},
-              key="polygon-query", cls="cross-crs" if cross else "same-crs", sig=hsig("P", (ny, nx), rx, ry, ox, oy, fx, fy, tuple(pts)), sample={**desc, "poly": pts, "got": sorted(got)})
+              key="polygon-query", cls="cross-crs" if cross else ("same-crs" if shape_kind == "polygon" else "same-crs|" + shape_kind), sig=hsig("P", (ny, nx), rx, ry, ox, oy, fx, fy, repr(pts)), sample={**desc, "poly": pts, "got": sorted(got)})
 
 
 def case_web(mon: Monitor, rng: random.Random) -> None:
@@ -342,7 +360,7 @@ def run(mon: Monitor, tier: str, seed: int, shard: int, nshards: int) -> None:
             except Exception as e:
                 mon.error(kind, e)
     mon.case = None
-    for pt, n in [("GridSpec.tile_geobox", 200), ("GridSpec.partition", 200), ("GridSpec.pt2idx", 200), ("GridSpec.tiles", 500), ("GridSpec.from_sample_tile", 200),
+    for pt, n in [("GridSpec.tiles_from_geopolygon|same-crs|multi-row", 5), ("GridSpec.tiles_from_geopolygon|same-crs|multi-col", 5), ("GridSpec.tiles_from_geopolygon|same-crs|hole", 5), ("GridSpec.tile_geobox", 200), ("GridSpec.partition", 200), ("GridSpec.pt2idx", 200), ("GridSpec.tiles", 500), ("GridSpec.from_sample_tile", 200),
                   ("GridSpec.tiles_from_geopolygon", 200), ("GridSpec.web_tiles", 50), ("GridSpec.tiles_from_geopolygon|cross-crs", 50),
                   ("GridSpec.tile_geobox|flipx=1,flipy=1|rx+ry-", 3), ("GridSpec.tile_geobox|flipx=0,flipy=0|rx-ry+", 1)]:
         mon.floor(pt, n)
